@@ -340,6 +340,10 @@ class SymbolicExpression(Generic[T], ABC):
 
     def __enter__(self, in_rule_mode: bool = False):
         node = self
+        if in_rule_mode and isinstance(self, ResultQuantifier):
+            # conclusions are attached to this query, so it is a rule, also when it was not written inside a rule block:
+            # its selected variables get their values from the conclusions, not from the instances that exist already.
+            self._child_.rule_mode = True
         if in_rule_mode or in_symbolic_mode(EQLMode.Rule):
             if (node is self._root_) or (node._parent_ is self._root_):
                 node = node._conditions_root_
